@@ -115,12 +115,12 @@ def cases(tier, seed, shard, nshards):
                         if k % nshards == shard:
                             yield {"k": "probe", "d": d, "probe": probe, "chain": chain, "cls": cls, "mode": mode}
     rnd = random.Random("C08:%d:%d" % (seed, shard))
-    for _ in range((600 if tier == "quick" else 60000) // nshards):
+    for _ in range((6000 if tier == "quick" else 120000) // nshards):
         yield {"k": "probe", "d": rnd.choice(DIALECT_CLASSES), "probe": rnd.choice(PROBES), "chain": [rnd.choice(CONTAINERS[:6]) for _ in range(3)],
                "cls": rnd.choice(["own", "generic", "mixed"]), "mode": rnd.choice(["inline", "param"]), "rnd": rnd.getrandbits(20)}
-    for i in range((900 if tier == "quick" else 90000) // nshards):
+    for i in range((6000 if tier == "quick" else 120000) // nshards):
         yield {"k": "neutral", "seed": "%d:%d:%d" % (seed, shard, i)}
-    for i in range((600 if tier == "quick" else 40000) // nshards):
+    for i in range((3000 if tier == "quick" else 60000) // nshards):
         d = DIALECT_CLASSES[i % 6]
         f = Forest(rnd, d)
         f.select_query(2)
@@ -237,6 +237,19 @@ def run_probe(case, mon):
         return
     mon.count("nested_renders")
     mon.add("cells", "%s|%s|%s" % (probe, case["chain"][0], fam))
+    # the root rendered the way users do it - str() / get_sql() without a context - must follow the same conventions
+    if case["mode"] == "inline":
+        try:
+            dflt = str(o) if isinstance(o, r["_SetOperation"]) else (o.get_sql() if isinstance(o, r["QueryBuilder"]) else None)
+        except Exception as e:
+            dflt = "<exc:%s>" % type(e).__name__
+        if dflt is not None:
+            mon.count("default_root_renders")
+            if dflt != sql:
+                mon.violation("default-render-differs:%s:%s" % ("generic-class" if case["cls"] != "own" else "own-class", case["chain"][-1]),
+                              "%s probe %s in %s: str()/get_sql() of the root gives %r, rendering through the dialect's context gives %r" % (
+                                  d, probe, "/".join(case["chain"]), dflt[:240], sql[:240]))
+                return
     # (i) context invariant
     bad = context_fault(tree, ctx0, case["mode"])
     if bad:
